@@ -329,6 +329,9 @@ def run(ctx, res):
     res.samples = [nnm.case_json(c) for c in cases[:2]]
     res.stats = dict(nnm.branch_stats(cases), **hist, **nnm.long_stats(lg))
     res.assumptions = ["finite N: full theorems for ALPHA (all estimators), betting (fixed, aGRAPA), SPRT, Kaplan-Kolmogorov; "
-                       "N=infinity: theorems are PARTIAL (finite-support laws with rational masses, every horizon) for ALPHA, betting, SPRT, "
-                       "Kaplan-Markov, Kaplan-Wald; continuous laws are outside the formal statement",
+                       "N=infinity: theorems for every law of rational-valued observations given by its expectation functional (positive, "
+                       "normalised, linear; real-valued), every finite horizon, for ALPHA, betting, SPRT, Kaplan-Markov, Kaplan-Wald; "
+                       "outside the statement: mass on irrational values, the limit in the horizon",
+                       "standard-library axioms used by the arbitrary-law theorems only: ClassicalDedekindReals.sig_forall_dec, "
+                       "FunctionalExtensionality.functional_extensionality_dep (Coq Reals)",
                        "np.sqrt: any function with nonnegative values (theorems)"]
